@@ -2,7 +2,7 @@
    uninterrupted run.  Theorems only. *)
 From Coq Require Import ZArith List Bool.
 Import ListNotations.
-From KD Require Import C04.Model C04.Spec C04.Lists C04.Arith C04.Proofs C04.Corollaries C04.Example.
+From KD Require Import C04.Model C04.Spec C04.Lists C04.Arith C04.Proofs C04.Corollaries C04.Batches C04.Bounds C04.Order C04.Example.
 Open Scope Z_scope.
 
 (* the constructor accepts exactly the checkpoints on epoch boundaries (explicit
@@ -85,6 +85,30 @@ Theorem c06_start_epoch_state : forall c e,
 Proof. reflexivity. Qed.
 Print Assumptions c06_start_epoch_state.
 
+(* objects have histories.  The InterleavedSampler carries no state from one
+   iteration to the next and reads nothing the shared main sampler object held
+   before: its stream is a function of the constructed attributes (and of the
+   side sampler objects' own iteration counts) only - a second iteration, an
+   iteration after an abandoned one, after another scheduler used the same main
+   sampler, or after a foreign set_epoch yields what the first iteration of a
+   fresh object yields.  (Immediate in the model - the point is that the harness
+   runs the REAL object through such histories and compares with [iterate].) *)
+Theorem c06_iteration_independent_of_history : forall c mi e u s w1 w2,
+  w_pcs w1 = w_pcs w2 -> iterate c mi e u s w1 = iterate c mi e u s w2.
+Proof. exact iteration_independent_of_history. Qed.
+Print Assumptions c06_iteration_independent_of_history.
+
+(* ... because the start epoch is announced at the START of every iteration (and
+   every later epoch before its iteration starts): whatever the main sampler
+   object held before the run ([ann] arbitrary: a stale epoch, None), at each
+   call of its __iter__ it holds exactly the epoch whose iteration the loop
+   consumes *)
+Theorem c06_epoch_held_at_iter_start : forall c mi, WF c mi -> forall n e0 pn tr,
+  length pn = length (sides c) -> run c mi n (start_state c e0 pn) = Some tr ->
+  forall ann, held ann tr = map Some (iter_labels tr).
+Proof. exact held_at_iter_start. Qed.
+Print Assumptions c06_epoch_held_at_iter_start.
+
 Example c06_premises_satisfiable :
   WF ex_cfg ex_iter /\ no_hit_in ex_cfg ex_iter 0 1 /\ before_budget ex_cfg (0 + Z.of_nat 1) /\ drop_last ex_cfg = true.
 Proof.
@@ -96,3 +120,7 @@ Example c06_example :
   option_map (app (epochs_events ex_cfg ex_iter 0 [0; 0]%nat 1))
              (run ex_cfg ex_iter 2 (start_state ex_cfg 1 (pn_after ex_cfg ex_iter 0 [0; 0]%nat 1))).
 Proof. vm_compute. reflexivity. Qed.
+Example c06_example_held :
+  option_map (held (Some 7)) (run ex_cfg ex_iter 2 (start_state ex_cfg 1 [0; 0]%nat)) = Some [Some 1]
+  /\ option_map (held None) (run ex_cfg ex_iter 4 (start_state ex_cfg 0 [0; 0]%nat)) = Some [Some 0; Some 1].
+Proof. vm_compute. split; reflexivity. Qed.
